@@ -24,8 +24,8 @@ CHECKS = {
             "C05_run: every message of every run of an accepted configuration with in-range axis events is a well-formed 3-byte channel message; C05_cleanup for the disconnect.",
             "Deadzones that are NaN/Inf/≥1 are outside the theorem (in-range hypothesis)."),
     "C06": ("Lean 4 proof over an exact binary64 model (Rat + rnd53) + bit-exact differential correspondence",
-            "C06_shape_range/mono, end stops, rest value, CC/pitch-bend range, monotonicity and exact ends, on the softfloat model for every raw value and deadzone in [0,1).",
-            "Trusted: Go on amd64 evaluates float64 + - * / with round-to-nearest-even and no FMA (validated bit-exactly on every evaluation of the run). Accuracy 'within one step' is covered by exhaustive 8-bit correspondence, not by a theorem."),
+            "C06_shape_range/mono, end stops, rest value, CC/pitch-bend range, monotonicity and exact ends, on the softfloat model for every raw value and deadzone in [0,1); accuracy (Props/C06acc.lean): C06_shape_accuracy (the binary64 shaped value is within 2^-17 of the exact rational transfer function Spec.idealShape, for every axis range within 32 bits and every deadzone in [0,1): error propagation through every rounding, with a separate argument for deadzones within 2^-32 of 1), C06_cc_accuracy / C06_pb_accuracy (every transmitted controller / pitch-bend value is within one step of Spec.idealValue, all signed/unsigned x uni/bidirectional x flip cases; absCC_sends ties the value to Dev.absCC).",
+            "Trusted: Go on amd64 evaluates float64 + - * / with round-to-nearest-even and no FMA (validated bit-exactly on every evaluation of the run). Axis ranges beyond 32 bits (not representable in an evdev event) are outside the accuracy theorem."),
     "C07": ("Lean 4 proof (invariant per bidirectional axis over all event sequences) + differential correspondence",
             "C07_sequence: for any sequence of events of a bidirectional axis with distinct controller numbers at most one side is non-zero at the receiver; C07_explicit_zero, C07_crossing, C07_learning_gate.", ""),
     "C08": ("Lean 4 proof (per event, from any state) + differential correspondence",
